@@ -1,8 +1,9 @@
 import FeatModel.Model.GraphBytes
 /-!
 C11 — `Graph::serialize` / `Graph(buffer)` round trip (model: `FeatModel/Model/GraphBytes.lean`).
-Positive theorem for graphs with at least one domain node, and the negative facts documenting the
-"zero domain nodes but allocated pointer array" defect.  Core Lean only.
+Round trip for graphs with at least one domain node, the shape of the round trip for graphs without domain
+nodes (a pointer array of length ≤ 1 is not stored), and the byte-for-byte clause for ALL graphs (the former
+"zero domain nodes but allocated pointer array" defect is fixed).  Core Lean only.
 -/
 namespace FeatModel.C11
 
@@ -35,7 +36,9 @@ theorem serialize_of_two_le (g : RawGraph) (h : g.domainPtr.length ≥ 2) :
     | nil => simp [hd] at h
     | cons a t => rfl
   have hgt : ¬ g.domainPtr.length ≤ 1 := by omega
-  simp [RawGraph.serialize, hne, hgt]
+  have hgt' : g.domainPtr.length > 1 := by omega
+  simp only [RawGraph.serialize, hne, hgt, hgt', if_true, if_false, Bool.false_eq_true]
+  simp
 
 theorem serialize_length_of_two_le (g : RawGraph) (h : g.domainPtr.length ≥ 2) :
     g.serialize.length = 5 + g.domainPtr.length + g.imageIdx.length := by
@@ -66,42 +69,108 @@ theorem graph_deserialize_serialize' (g : RawGraph) (h : g.domainPtr.length ≥ 
     rw [range_map_getD _ _ rfl]
     cases g; simp_all
 
-theorem graph_deserialize_serialize (g : RawGraph) (h : g.wf = true) :
-    RawGraph.deserialize g.serialize = some g := by
-  apply graph_deserialize_serialize'
-  simp only [RawGraph.wf, Bool.and_eq_true, decide_eq_true_eq] at h
-  exact h.1
-
 /-- byte-for-byte: deserialise-then-serialise reproduces the buffer -/
 theorem graph_serialize_idempotent (g : RawGraph) (h : g.domainPtr.length ≥ 2) :
     (RawGraph.deserialize g.serialize).map RawGraph.serialize = some g.serialize := by
   rw [graph_deserialize_serialize' g h]; rfl
 
-/-! ### the known defect: zero domain nodes with an allocated pointer array -/
+/-! ### graphs without domain nodes: the pointer array is not stored -/
 
-/-- a graph with `domainPtr = [0]` serialises to 6 words … -/
-theorem graph_zero_domain_serialize_length (k : Nat) :
-    ({ numImage := k, domainPtr := [0], imageIdx := [] } : RawGraph).serialize.length = 6 := by
-  simp [RawGraph.serialize]
+theorem range_map_getD_replicate (n : Nat) :
+    (List.range n).map (fun i => (List.replicate n 0).getD i 0) = List.replicate n 0 := by
+  have := range_map_getD (List.replicate n 0) n (by simp)
+  exact this
 
-/-- … and is read back as the graph without pointer array … -/
+/-- the shape of the buffer for a graph without domain nodes (pointer array absent or of length 1) -/
+theorem serialize_of_le_one (g : RawGraph) (h : g.domainPtr.length ≤ 1) :
+    g.serialize =
+      graphMagic :: ((5 + g.imageIdx.length) * 8) :: 0 :: g.numImage :: g.imageIdx.length ::
+        List.replicate g.imageIdx.length 0 := by
+  have hgt : ¬ g.domainPtr.length > 1 := by omega
+  have h0 : (if g.domainPtr.isEmpty = true then 0 else g.domainPtr.length - 1) = 0 := by
+    split
+    · rfl
+    · omega
+  simp only [RawGraph.serialize, hgt, h, h0, if_true, if_false]
+  simp
+
+/-- a graph without domain nodes is read back without pointer array (and with the zero-filled index array the
+    buffer holds; for a well-formed graph that array is empty) -/
+theorem graph_deserialize_serialize_le_one (g : RawGraph) (h : g.domainPtr.length ≤ 1) :
+    RawGraph.deserialize g.serialize =
+      some { numImage := g.numImage, domainPtr := [], imageIdx := List.replicate g.imageIdx.length 0 } := by
+  rw [serialize_of_le_one g h]
+  unfold RawGraph.deserialize
+  have hlen : (graphMagic :: ((5 + g.imageIdx.length) * 8) :: 0 :: g.numImage :: g.imageIdx.length ::
+        List.replicate g.imageIdx.length 0).length = 5 + g.imageIdx.length := by
+    simp only [List.length_cons, List.length_replicate]; omega
+  rw [hlen]
+  have h5 : ¬ (5 + g.imageIdx.length < 5) := by omega
+  have h00 : ¬ (0 > 0) := by omega
+  simp only [h5, if_false, List.getD_cons_zero, List.getD_cons_succ, bne_self_eq_false,
+    Bool.false_eq_true, List.drop_succ_cons, List.drop_zero, h00]
+  by_cases hi : g.imageIdx.length > 0
+  · simp only [hi, if_true]
+    rw [range_map_getD_replicate]
+  · have : g.imageIdx.length = 0 := by omega
+    simp [this]
+
+/-- `deserialize ∘ serialize` for every well-formed graph: the graph itself if it has domain nodes, the graph
+    without its (unstored) pointer array otherwise; in both cases nothing observable is lost -/
+theorem graph_deserialize_serialize (g : RawGraph) (h : g.wf = true) :
+    ∃ g', RawGraph.deserialize g.serialize = some g' ∧
+      g' = (if g.domainPtr.length ≥ 2 then g else { g with domainPtr := [] }) ∧
+      g'.serialize = g.serialize ∧ g'.numImage = g.numImage ∧ g'.imageIdx = g.imageIdx ∧
+      g'.numDomain = g.numDomain ∧ g'.wf = true := by
+  have hw := h
+  simp only [RawGraph.wf, Bool.or_eq_true, Bool.and_eq_true, decide_eq_true_eq, List.isEmpty_iff] at h
+  rcases h with ⟨h1, h2⟩ | ⟨h1, h2⟩
+  · have hlt : ¬ g.domainPtr.length ≥ 2 := by omega
+    refine ⟨{ g with domainPtr := [] }, ?_, by simp [hlt], ?_, rfl, rfl, ?_, ?_⟩
+    · rw [graph_deserialize_serialize_le_one g h1, h2]; cases g; simp_all
+    · rw [serialize_of_le_one g h1, serialize_of_le_one _ (by simp)]
+    · simp only [RawGraph.numDomain, List.length_nil]; omega
+    · simp [RawGraph.wf, h2]
+  · exact ⟨g, graph_deserialize_serialize' g h1, by simp [h1], rfl, rfl, rfl, rfl, hw⟩
+
+/-- a well-formed graph with domain nodes round-trips exactly -/
+theorem graph_deserialize_serialize_wf_two_le (g : RawGraph) (_h : g.wf = true) (h2 : g.domainPtr.length ≥ 2) :
+    RawGraph.deserialize g.serialize = some g :=
+  graph_deserialize_serialize' g h2
+
+/-- byte-for-byte for EVERY graph (no hypothesis at all): deserialise-then-serialise reproduces the buffer -/
+theorem graph_serialize_idempotent_any (g : RawGraph) :
+    (RawGraph.deserialize g.serialize).map RawGraph.serialize = some g.serialize := by
+  by_cases h : g.domainPtr.length ≥ 2
+  · exact graph_serialize_idempotent g h
+  · have h1 : g.domainPtr.length ≤ 1 := by omega
+    rw [graph_deserialize_serialize_le_one g h1, Option.map_some, serialize_of_le_one g h1,
+      serialize_of_le_one _ (by simp)]
+    simp
+
+/-- the fixed byte-for-byte clause: now for ALL graphs, including those without domain nodes -/
+theorem graph_serialize_idempotent_all (g : RawGraph) (_h : g.domainPtr.length ≥ 2 ∨ g.imageIdx = []) :
+    (RawGraph.deserialize g.serialize).map RawGraph.serialize = some g.serialize :=
+  graph_serialize_idempotent_any g
+
+/-! ### the former defect: zero domain nodes with an allocated pointer array -/
+
+/-- a graph with `domainPtr = [0]` is read back as the graph without pointer array … -/
 theorem graph_zero_domain_deserialize (k : Nat) :
     RawGraph.deserialize ({ numImage := k, domainPtr := [0], imageIdx := [] } : RawGraph).serialize
       = some { numImage := k, domainPtr := [], imageIdx := [] } := by
-  simp [RawGraph.serialize, RawGraph.deserialize]
+  rw [graph_deserialize_serialize_le_one _ (by simp)]; rfl
 
-/-- … which re-serialises to 5 words: the byte-for-byte clause fails here. -/
-theorem graph_zero_domain_reserialize_length (k : Nat) :
+/-- … and both serialise to the same 5 words: the byte-for-byte clause holds -/
+theorem graph_zero_domain_idempotent (k : Nat) :
     (RawGraph.deserialize ({ numImage := k, domainPtr := [0], imageIdx := [] } : RawGraph).serialize).map
-      (fun g => g.serialize.length) = some 5 := by
-  rw [graph_zero_domain_deserialize]
-  simp [RawGraph.serialize]
+      RawGraph.serialize = some ({ numImage := k, domainPtr := [0], imageIdx := [] } : RawGraph).serialize :=
+  graph_serialize_idempotent_all _ (Or.inr rfl)
 
-theorem graph_zero_domain_not_idempotent (k : Nat) :
-    (RawGraph.deserialize ({ numImage := k, domainPtr := [0], imageIdx := [] } : RawGraph).serialize).map
-      RawGraph.serialize ≠ some ({ numImage := k, domainPtr := [0], imageIdx := [] } : RawGraph).serialize := by
-  rw [graph_zero_domain_deserialize]
-  simp [RawGraph.serialize]
+theorem graph_zero_domain_serialize_eq_default (k : Nat) :
+    ({ numImage := k, domainPtr := [0], imageIdx := [] } : RawGraph).serialize =
+      ({ numImage := k, domainPtr := [], imageIdx := [] } : RawGraph).serialize := by
+  rw [serialize_of_le_one _ (by simp), serialize_of_le_one _ (by simp)]
 
 /-- the default-constructed graph round-trips (for every `numImage`) -/
 theorem graph_default_roundtrip (k : Nat) :
